@@ -2,7 +2,7 @@ HOOKS = {
     "guard": "verif",
     "enable": "go build -tags verif (every ./check run builds /repo/cmd with the tag on)",
     "baseline_off_cmd": "cd /repo && GOFLAGS=-mod=mod GOPROXY=off go test -vet=off -count=1 ./...",
-    "source_commits": ["1132257"],
+    "source_commits": ["1132257", "94a87bb"],
     "add_only": True,
 }
 NOTES = ("Every check rebuilds the crd binary from /repo's working tree into a scratch directory, runs the TLA+ models with TLC, "
